@@ -173,6 +173,67 @@ def e2e_case(case):
                               {"K": K, "loop": L, "depth": depth, "line": o.line("invariant_x"), "warnings": o.warnings})
             else:
                 rec.ok(cls, ident)
+        elif kind == "invariant-fn-loop":
+            # the loop is in the invariant function itself (run against every frontier state): for i < x(): c++ ; c == 5 fails
+            order, L = par
+            pool = {"set(uint256)": [("PUSH", 8)] + e2e.arg(0) + ["LT", ("PUSHL", "rq"), "JUMPI", "PUSH0", "PUSH0", "REVERT", ("LABEL", "rq")]
+                    + e2e.arg(0) + ["PUSH0", "SSTORE"], "mark()": [("PUSH", 1), ("PUSH", 1), "SSTORE"]}
+            tgt = e2e.Spec("SetMark", fns=[(s, pool[s]) for s in order] + [("x()", ["PUSH0", "SLOAD", "PUSH0", "MSTORE", ("PUSH", 32), "PUSH0", "RETURN"])])
+            inv = e2e.ext_call([("PUSH", 0), "SLOAD"], "x()", static=True) + ["POP", ("PUSH", 0x80), "MLOAD", "PUSH0", "PUSH0",
+                                                                             ("LABEL", "top"), "DUP3", "DUP3", "LT", "ISZERO", ("PUSHL", "end"), "JUMPI",
+                                                                             ("PUSH", 1), "ADD", "SWAP1", ("PUSH", 1), "ADD", "SWAP1", ("PUSHL", "top"), "JUMP",
+                                                                             ("LABEL", "end"), ("PUSH", 5), "EQ", ("PUSHL", "bad"), "JUMPI", "STOP", ("LABEL", "bad")] + e2e.panic(1)
+            t = e2e.Spec("InvLoopT", fns=[("setUp()", e2e.create_from_data("tgt", store_slot=0)), ("invariant_c()", inv)], data={"tgt": tgt.creation()})
+            o = e2e.run(t, others=(tgt,), loop=L, invariant_depth=1)
+            r = o.result("invariant_c")
+            flagged = any(w in m for _, m in o.warnings for w in FLAGS) or (r is not None and (r.num_bounded_loops or 0) > 0)
+            if r is not None and r.exitcode == 0 and not flagged and L < 5:
+                rec.violation(cls, f"invariant-function-loop-clean-pass/{'+'.join(x.split('(')[0] for x in order)}",
+                              f"invariant_c() loops x() times and fails at 5; set(5) breaks it in one call; --loop {L} cuts the loop on the "
+                              f"frontier state after set(v) but the test is a clean PASS (targets in order {order})",
+                              {"order": list(order), "loop": L, "line": o.line("invariant_c"), "warnings": o.warnings})
+            else:
+                rec.ok(cls, ident)
+        elif kind == "stuck-unknown-solver":
+            # the feasibility query of a stuck path is answered `unknown` / garbage / nothing by the solver: still not a clean PASS
+            reply, = par
+            import stat
+            import tempfile
+
+            d = tempfile.mkdtemp(prefix="verif_c10_")
+            try:
+                stub = os.path.join(d, "stub.sh")
+                with open(stub, "w") as fh:
+                    fh.write("#!/bin/sh\n" + {"unknown": "echo unknown", "garbage": "echo '(error \"boom\")'", "empty": "true",
+                                               "exit3": "exit 3"}[reply] + "\n")
+                os.chmod(stub, os.stat(stub).st_mode | stat.S_IEXEC)
+                body = e2e.arg(0) + [("PUSH", 5), "EQ", ("PUSHL", "go"), "JUMPI", "STOP", ("LABEL", "go")] + e2e.arg(1) + ["MLOAD", "POP", "STOP"]
+                spec = e2e.Spec("StuckU", fns=[("check_s(uint256,uint256)", body)])
+                o = e2e.run(spec, solver_command=stub)
+            finally:
+                import shutil
+
+                shutil.rmtree(d, ignore_errors=True)
+            r = o.result("check_s")
+            if r is not None and r.exitcode == 0:
+                rec.violation(cls, f"stuck-path-dropped/{reply}", f"a path stopped by a symbolic memory offset whose feasibility query the solver "
+                              f"answers with '{reply}' was dropped: clean PASS", {"reply": reply, "line": o.line("check_s"), "warnings": o.warnings})
+            else:
+                rec.ok(cls, ident)
+        elif kind == "invariant-target-unsupported":
+            weird = e2e.arg(0) + ["MLOAD", "POP", "STOP"]
+            tgt = e2e.Spec("Weird", fns=[("weird(uint256)", weird), ("x()", ["PUSH0", "SLOAD", "PUSH0", "MSTORE", ("PUSH", 32), "PUSH0", "RETURN"])])
+            inv = e2e.ext_call([("PUSH", 0), "SLOAD"], "x()", static=True) + ["POP", "STOP"]
+            t = e2e.Spec("InvWeirdT", fns=[("setUp()", e2e.create_from_data("tgt", store_slot=0)), ("invariant_w()", inv)], data={"tgt": tgt.creation()})
+            o = e2e.run(t, others=(tgt,), invariant_depth=1)
+            r = o.result("invariant_w")
+            reported = any(("symbolic" in m or "NotConcrete" in m or "internal-error" in m) for _, m in o.warnings)
+            if r is not None and r.exitcode == 0 and not reported:
+                rec.violation(cls, "invariant-target-stuck-silent", "a target call stopped by an unsupported feature (symbolic memory offset) in "
+                              "its own frame is neither logged nor reflected in the status: clean PASS",
+                              {"line": o.line("invariant_w"), "log": o.warnings})
+            else:
+                rec.ok(cls, ident)
     except oracle.OracleError as e:
         rec.inconc(cls, ident, f"oracle: {e}")
     except Exception as e:
@@ -237,6 +298,9 @@ def main(run: common.Run):
         cases += [("test-width", (W,), tier) for W in (1, 2, 3, 8)] + [("test-depth", (D,), tier) for D in (20, 60, 400)]
         cases += [("test-unsupported", (), tier)] + [("setup-loop", (L,), tier) for L in (1, 2, 3)]
         cases += [("invariant-loop", (K, L, d), tier) for K in (1, 3, 5) for L in (1, 2, 6) for d in (1, 2)]
+        cases += [("invariant-fn-loop", (order, L), tier) for order in (("set(uint256)", "mark()"), ("mark()", "set(uint256)")) for L in (1, 2, 3)]
+        cases += [("stuck-unknown-solver", (rp,), tier) for rp in ("unknown", "garbage", "empty", "exit3")]
+        cases += [("invariant-target-unsupported", (), tier)]
         for res in common.parallel_map(e2e_case, cases, 6):
             if res and res[0] == "error":
                 run.harness_error("worker crashed: " + res[1].strip().splitlines()[-1])
